@@ -76,13 +76,13 @@ func init() {
 				key := "byteof:" + b
 				if !e.once[key] {
 					e.once[key] = true
-					e.assume(fmt.Sprintf("(and (<= 0 %s) (<= %s 255))", b, b))
+					e.assumeGlobal(fmt.Sprintf("(and (<= 0 %s) (<= %s 255))", b, b))
 				}
 			}
 			key := fmt.Sprintf("leinv%d:%s", bits, x)
 			if !e.once[key] {
 				e.once[key] = true
-				e.assume(fmt.Sprintf("(= (le%d %s) %s)", bits, strings.Join(bs, " "), x))
+				e.assumeGlobal(fmt.Sprintf("(= (le%d %s) %s)", bits, strings.Join(bs, " "), x))
 			}
 			e.setComp(h, "E.uint8", fmt.Sprintf("(store %s %s %s)", arr, s.B, row))
 			return true
@@ -413,6 +413,8 @@ func init() {
 		if dst, ok := args[2].(SliceV); ok {
 			if r, ok := rv[0].(SliceV); ok {
 				e.assume(fmt.Sprintf("(and (>= %s %s) (> %s 0))", r.C, dst.C, r.B))
+				// append semantics: the result is dst's backing array or a new one
+				e.assume(fmt.Sprintf("(or (= %s %s) (> %s %s))", r.B, dst.B, r.B, e.water()))
 			}
 		}
 		f.setResult(in, rv)
@@ -453,7 +455,7 @@ func init() {
 			key := "stridx:" + t
 			if !e.once[key] {
 				e.once[key] = true
-				e.assume(fmt.Sprintf("(and (<= (- 1) %s) (or (= %s (- 1)) (<= (+ %s (slen %s)) (slen %s))))", t, t, t, sub, s))
+				e.assumeGlobal(fmt.Sprintf("(and (<= (- 1) %s) (or (= %s (- 1)) (<= (+ %s (slen %s)) (slen %s))))", t, t, t, sub, s))
 				// a found occurrence really is one: the bytes of a short literal pattern are there
 				c := in.(ssa.CallInstruction).Common()
 				if k, ok := c.Args[1].(*ssa.Const); ok && k.Value != nil && k.Value.Kind() == constant.String {
@@ -463,7 +465,7 @@ func init() {
 						for i := 0; i < len(lit); i++ {
 							eqs = append(eqs, fmt.Sprintf("(= (sat %s (+ %s %d)) %d)", s, t, i, lit[i]))
 						}
-						e.assume(fmt.Sprintf("(=> (>= %s 0) (and %s))", t, strings.Join(eqs, " ")))
+						e.assumeGlobal(fmt.Sprintf("(=> (>= %s 0) (and %s))", t, strings.Join(eqs, " ")))
 					}
 				}
 			}
@@ -586,16 +588,16 @@ func init() {
 			e.useQuant = true
 			tok := q(fmt.Sprintf("sortfact!%d", e.n))
 			_ = tok
-			e.assume(fmt.Sprintf("(forall ((k Int)) (! (=> (and (<= 0 k) (< k %s)) (and (<= 0 (%s k)) (< (%s k) %s) (= (%s (%s k)) k))) :pattern ((%s k))))", sv.L, perm, perm, sv.L, inv, perm, perm))
-			e.assume(fmt.Sprintf("(forall ((k Int)) (! (=> (and (<= 0 k) (< k %s)) (and (<= 0 (%s k)) (< (%s k) %s) (= (%s (%s k)) k))) :pattern ((%s k))))", sv.L, inv, inv, sv.L, perm, inv, inv))
+			e.assumeGlobal(fmt.Sprintf("(forall ((k Int)) (! (=> (and (<= 0 k) (< k %s)) (and (<= 0 (%s k)) (< (%s k) %s) (= (%s (%s k)) k))) :pattern ((%s k))))", sv.L, perm, perm, sv.L, inv, perm, perm))
+			e.assumeGlobal(fmt.Sprintf("(forall ((k Int)) (! (=> (and (<= 0 k) (< k %s)) (and (<= 0 (%s k)) (< (%s k) %s) (= (%s (%s k)) k))) :pattern ((%s k))))", sv.L, inv, inv, sv.L, perm, inv, inv))
 			for _, cs := range e.elemComps(st.Elem()) {
 				name, so := cs[0], cs[1]
 				arr := e.comp(h, name, so, true)
 				na := e.fresh("Hsort."+name, fmt.Sprintf("(Array Int %s)", so))
 				oldRow := fmt.Sprintf("(select %s %s)", arr, sv.B)
 				// absolute index j of the backing array: new[j] = old[off + perm(j - off)] inside the range, unchanged outside
-				e.assume(fmt.Sprintf("(forall ((j Int)) (! (=> (and (<= %s j) (< j (+ %s %s))) (= (select %s j) (select %s (+ %s (%s (- j %s)))))) :pattern ((select %s j))))", sv.O, sv.O, sv.L, na, oldRow, sv.O, perm, sv.O, na))
-				e.assume(fmt.Sprintf("(forall ((j Int)) (! (=> (or (< j %s) (>= j (+ %s %s))) (= (select %s j) (select %s j))) :pattern ((select %s j))))", sv.O, sv.O, sv.L, na, oldRow, na))
+				e.assumeGlobal(fmt.Sprintf("(forall ((j Int)) (! (=> (and (<= %s j) (< j (+ %s %s))) (= (select %s j) (select %s (+ %s (%s (- j %s)))))) :pattern ((select %s j))))", sv.O, sv.O, sv.L, na, oldRow, sv.O, perm, sv.O, na))
+				e.assumeGlobal(fmt.Sprintf("(forall ((j Int)) (! (=> (or (< j %s) (>= j (+ %s %s))) (= (select %s j) (select %s j))) :pattern ((select %s j))))", sv.O, sv.O, sv.L, na, oldRow, na))
 				e.setComp(h, name, fmt.Sprintf("(store %s %s %s)", arr, sv.B, na))
 			}
 			e.sortFacts = append(e.sortFacts, sortFact{perm: perm, inv: inv, slice: sv, stable: stable, less: args[1], elem: st.Elem()})
@@ -681,8 +683,8 @@ func init() {
 		e.useQuant = true
 		e.useStrLe = true
 		// ascending in the total order strle, a permutation of what was there (permutation part: lengths only), rest unchanged
-		e.assume(fmt.Sprintf("(forall ((j Int)) (! (=> (and (<= %s j) (< (+ j 1) (+ %s %s))) (strle (select %s j) (select %s (+ j 1)))) :pattern ((select %s j))))", sv.O, sv.O, sv.L, na, na, na))
-		e.assume(fmt.Sprintf("(forall ((j Int)) (! (=> (or (< j %s) (>= j (+ %s %s))) (= (select %s j) (select %s j))) :pattern ((select %s j))))", sv.O, sv.O, sv.L, na, oldRow, na))
+		e.assumeGlobal(fmt.Sprintf("(forall ((j Int)) (! (=> (and (<= %s j) (< (+ j 1) (+ %s %s))) (strle (select %s j) (select %s (+ j 1)))) :pattern ((select %s j))))", sv.O, sv.O, sv.L, na, na, na))
+		e.assumeGlobal(fmt.Sprintf("(forall ((j Int)) (! (=> (or (< j %s) (>= j (+ %s %s))) (= (select %s j) (select %s j))) :pattern ((select %s j))))", sv.O, sv.O, sv.L, na, oldRow, na))
 		e.setComp(h, "E.string", fmt.Sprintf("(store %s %s %s)", arr, sv.B, na))
 		return true
 	})
@@ -702,8 +704,8 @@ func init() {
 			na := e.fresh("Hrev."+name, fmt.Sprintf("(Array Int %s)", so))
 			oldRow := fmt.Sprintf("(select %s %s)", arr, sv.B)
 			// new[off + k] = old[off + len-1-k]
-			e.assume(fmt.Sprintf("(forall ((j Int)) (! (=> (and (<= %s j) (< j (+ %s %s))) (= (select %s j) (select %s (- (+ %s %s %s) 1 j)))) :pattern ((select %s j))))", sv.O, sv.O, sv.L, na, oldRow, sv.O, sv.O, sv.L, na))
-			e.assume(fmt.Sprintf("(forall ((j Int)) (! (=> (or (< j %s) (>= j (+ %s %s))) (= (select %s j) (select %s j))) :pattern ((select %s j))))", sv.O, sv.O, sv.L, na, oldRow, na))
+			e.assumeGlobal(fmt.Sprintf("(forall ((j Int)) (! (=> (and (<= %s j) (< j (+ %s %s))) (= (select %s j) (select %s (- (+ %s %s %s) 1 j)))) :pattern ((select %s j))))", sv.O, sv.O, sv.L, na, oldRow, sv.O, sv.O, sv.L, na))
+			e.assumeGlobal(fmt.Sprintf("(forall ((j Int)) (! (=> (or (< j %s) (>= j (+ %s %s))) (= (select %s j) (select %s j))) :pattern ((select %s j))))", sv.O, sv.O, sv.L, na, oldRow, na))
 			e.setComp(h, name, fmt.Sprintf("(store %s %s %s)", arr, sv.B, na))
 		}
 		return true
@@ -874,8 +876,8 @@ func (f *frame) fillBytes(h *Heap, s SliceV, nm string) {
 	arr := e.comp(h, "E.uint8", "Int", true)
 	na := e.fresh("Hrd.E.uint8", "(Array Int Int)")
 	e.useQuant = true
-	e.assume(fmt.Sprintf("(forall ((j Int)) (! (=> (or (< j %s) (>= j (+ %s %s))) (= (select %s j) (select (select %s %s) j))) :pattern ((select %s j))))", s.O, s.O, s.L, na, arr, s.B, na))
-	e.assume(fmt.Sprintf("(forall ((j Int)) (! (and (<= 0 (select %s j)) (<= (select %s j) 255)) :pattern ((select %s j))))", na, na, na))
+	e.assumeGlobal(fmt.Sprintf("(forall ((j Int)) (! (=> (or (< j %s) (>= j (+ %s %s))) (= (select %s j) (select (select %s %s) j))) :pattern ((select %s j))))", s.O, s.O, s.L, na, arr, s.B, na))
+	e.assumeGlobal(fmt.Sprintf("(forall ((j Int)) (! (and (<= 0 (select %s j)) (<= (select %s j) 255)) :pattern ((select %s j))))", na, na, na))
 	e.setComp(h, "E.uint8", fmt.Sprintf("(store %s %s %s)", arr, s.B, na))
 }
 
@@ -889,7 +891,7 @@ func (f *frame) fillFromStream(h *Heap, s SliceV, nm string, r, n string) {
 	pos := e.ghost(h, "rd_pos")
 	e.useQuant = true
 	row := fmt.Sprintf("(select %s %s)", arr, s.B)
-	e.assume(fmt.Sprintf("(forall ((j Int)) (! (=> (and (<= %s j) (< j (+ %s %s))) (= (select %s j) (rdbyte %s (select %s %s) (+ (select %s %s) (- j %s))))) :pattern ((select %s j))))",
+	e.assumeGlobal(fmt.Sprintf("(forall ((j Int)) (! (=> (and (<= %s j) (< j (+ %s %s))) (= (select %s j) (rdbyte %s (select %s %s) (+ (select %s %s) (- j %s))))) :pattern ((select %s j))))",
 		s.O, s.O, n, row, r, gen, r, pos, r, s.O, row))
 }
 
@@ -930,7 +932,7 @@ func (f *frame) streamIsSlice(h *Heap, r, g string, s SliceV) {
 	e := f.e
 	arr := e.comp(h, "E.uint8", "Int", true)
 	e.useQuant = true
-	e.assume(fmt.Sprintf("(forall ((i Int)) (! (=> (and (<= 0 i) (< i %s)) (= (rdbyte %s %s i) (select (select %s %s) (+ %s i)))) :pattern ((rdbyte %s %s i))))", s.L, r, g, arr, s.B, s.O, r, g))
+	e.assumeGlobal(fmt.Sprintf("(forall ((i Int)) (! (=> (and (<= 0 i) (< i %s)) (= (rdbyte %s %s i) (select (select %s %s) (+ %s i)))) :pattern ((rdbyte %s %s i))))", s.L, r, g, arr, s.B, s.O, r, g))
 }
 
 // setGhost stores a new value of a ghost component at one key (recorded so that frames can be checked syntactically).
